@@ -1,6 +1,7 @@
 import Driver.Replay
 import Driver.Oracles
 import Driver.C11
+import Driver.C01
 /-
   tvcoredriver <PROP> <trace-file>
   One `CASE` line per case (CONVENTIONS §3) and a SUMMARY line.
@@ -57,7 +58,8 @@ def main (args : List String) : IO UInt32 := do
     let mut obad := 0
     for c in cases do
       let isC11 : Bool := match c.head? with | some l => decide ((l.splitOn "family=c11").length > 1) | none => false
-      let (out, k, o) := if isC11 then TV.Driver.C11.evalCase c else runCase prop c
+      let (out, k, o) := if prop == "C01" then TV.Driver.C01.evalCase c
+                         else if isC11 then TV.Driver.C11.evalCase c else runCase prop c
       IO.println out
       if !k then kbad := kbad + 1
       if !o then obad := obad + 1
